@@ -23,7 +23,8 @@ RULE = (
 ASSUMPTIONS = [
     "reference model mc/ref/rpatch.py (RFC 6902 section 4, functional), self-tested on RFC 6902 Appendix A",
     "documents compared as JSON values: typed, objects unordered, dict keys must be str",
-    "not generated: remove of the root, move from the root, negative array indices (documented pointer extension)",
+    "not generated: remove of the root, move from the root, negative tokens below the final position of a path (resolving "
+    "through them is the documented pointer extension; as the final token of a patch path '-1' is generated and must be refused)",
     "a non-test failure may be reported by any JSONPatchError; a failed test must be JSONPatchTestFailure",
 ]
 
@@ -72,6 +73,8 @@ def menu_paths(doc):
                 # the pointer extension '#<index>' (index of an element) is not an RFC 6901 array index
                 paths.append(toks + ["#0"])
                 paths.append(toks + ["#%d" % n])
+                # a negative number is not an RFC 6901 array index (JSONPointer resolves it from the end; RFC 6902 does not)
+                paths.append(toks + ["-1"])
                 # canonical digits followed by a line break are not an index (int() and '$' both forgive the line break)
                 paths.append(toks + ["0\n"])
         else:
